@@ -1,2 +1,4 @@
 //! Oracle kit: independent reference implementations (DESIGN.md section 1).
 pub mod int;
+pub mod forms;
+pub mod rel;
